@@ -172,7 +172,50 @@ def h_regraft(ds, forest, outs, rnd):
     return t
 
 
-HISTORIES = {"shuffled": h_shuffled, "smc": h_smc, "roundtrip": h_roundtrip, "regraft": h_regraft}
+def h_observed(ds, forest, outs, rnd):
+    """Reach the tree by data-point moves (the Gibbs move's edit sequence) on a tree that is looked at in between:
+    hashed, compared, used as a set member / dict key, asked for its clades.  Looking must not change what it is."""
+    import copy as _c
+
+    nodes = []
+
+    def walk(lst):
+        for node in lst:
+            nodes.append(node)
+            walk(node[1])
+
+    f2 = _c.deepcopy(forest)
+    walk(f2)
+    donors = [n for n in nodes if len(n[0]) >= 2]
+    if not donors or len(nodes) < 2:
+        return None
+    moves = []
+    orig = {id(n): list(n[0]) for n in nodes}
+    for home in rnd.sample(donors, min(len(donors), rnd.randint(1, 2))):
+        x = rnd.choice(orig[id(home)])
+        away = rnd.choice([n for n in nodes if n is not home] + ([None] if outs else []))
+        home[0].remove(x)
+        moves.append((x, home, away))
+        if away is not None:
+            away[0].append(x)
+    outs2 = list(outs) + [x for x, _, a in moves if a is None]
+    t = build_tree(ds.real, canon_forest(f2), sorted(outs2))
+    seen = {t: 1}
+    hash(t), t == t.copy(), t.get_clades() if hasattr(t, "get_clades") else None
+    for x, home, away in moves:
+        labels = t.labels
+        anchor = labels[min(d for d in orig[id(home)] if d != x)]
+        if away is None:
+            t.remove_data_point_from_outliers(ds.real[x])
+        else:
+            t.remove_data_point_from_node(ds.real[x], labels[x])
+        hash(t), (t in seen)
+        t.add_data_point_to_node(ds.real[x], anchor)
+        seen[t.copy()] = 2
+    return t
+
+
+HISTORIES = {"shuffled": h_shuffled, "smc": h_smc, "roundtrip": h_roundtrip, "regraft": h_regraft, "observed": h_observed}
 
 
 # ----------------------------------------------------------------------------- independent oracle
@@ -238,7 +281,16 @@ def check(ctx, case):
     site = "tree.distributions.TreeJointDistribution"
     for name, t in trees.items():
         ctx.stat("history_" + name)
-        f2, o2 = extract(t)
+        try:
+            f2, o2 = extract(t)
+        except Exception as e:
+            # not readable as a forest by the harness: still judge the property (identity with the canonical build)
+            if not (t == trees["canonical"]) or hash(t) != hash(trees["canonical"]):
+                ctx.oracle_fail(case, f"history '{name}' gives a tree that does not compare/hash equal to the canonical build "
+                                      f"(and is not a well-formed forest: {str(e)[:80]})", "tree.Tree.__eq__", "eq")
+            else:
+                ctx.corr_fail(case, f"history {name} produced a tree the harness cannot read", str(e)[:300])
+            continue
         if ckey(f2, o2) != key:
             ctx.corr_fail(case, f"history {name} did not produce the requested tree", [f2, o2])
             continue
@@ -298,6 +350,9 @@ def search(ctx, failed, rnd, deadline):
         o_marg, o_one = oracle(ds, c["forest"], c["outs"], float(Fraction(c["alpha"])), trees["canonical"])
         ctx.evaluations += 1
         for name, t in trees.items():
+            if not (t == trees["canonical"]) or hash(t) != hash(trees["canonical"]):
+                ctx.oracle_fail(c, f"history '{name}' gives a tree that does not compare/hash equal to the canonical build", "tree.Tree.__eq__", "eq")
+                return
             b, b1 = td.compute_both_log_p_and_log_p_one(t)
             for nm, v, w in (("log_p", float(td.log_p(t)), o_marg), ("log_p_one", float(td.log_p_one(t)), o_one), ("fused log_p", float(b), o_marg), ("fused log_p_one", float(b1), o_one)):
                 if not (abs(v - w) <= TOL):
